@@ -167,12 +167,12 @@ theorem consistent_insertChild {s : St} (hc : Consistent s) {L : Layer} (hup : s
   · -- kidsLoaded
     intro p m0 hm0 hlo n'
     show (n' ∈ m0.kids → localExp (s.disk.setUpper (n :: pp) X) m0 n' ≠ []) ∧
-      (headStat (s.disk.setUpper (n :: pp) X) (localExp (s.disk.setUpper (n :: pp) X) m0 n') ≠ none → n' ∈ m0.kids)
+      (needsNode (localExp (s.disk.setUpper (n :: pp) X) m0 n') = true → n' ∈ m0.kids)
     rcases hget _ _ hm0 with ⟨h1, h2⟩ | ⟨_, h2⟩ | ⟨h1, h2, h3, h4⟩
     · subst h1
       rw [h2]
       show (n' ∈ addNames pm.kids [n] → localExp (s.disk.setUpper (n :: p) X) pm n' ≠ []) ∧
-        (headStat (s.disk.setUpper (n :: p) X) (localExp (s.disk.setUpper (n :: p) X) pm n') ≠ none →
+        (needsNode (localExp (s.disk.setUpper (n :: p) X) pm n') = true →
           n' ∈ addNames pm.kids [n])
       by_cases hn : n' = n
       · subst hn
@@ -180,7 +180,7 @@ theorem consistent_insertChild {s : St} (hc : Consistent s) {L : Layer} (hup : s
       · have hne : n' :: p ≠ n :: p := by intro h; injection h with h; exact hn h
         rw [localExp_agree s.disk _ pm n' (agree_setUpper hc _ X hu hpm n' hq_ne_pp.symm hne)]
         have := hl.kidsLoaded p pm hpm hploaded n'
-        refine ⟨fun h => this.1 ?_, fun h => mem_addNames.2 (Or.inl (this.2 ((headStat_ne_none_iff s.disk _ _).1 h)))⟩
+        refine ⟨fun h => this.1 ?_, fun h => mem_addNames.2 (Or.inl (this.2 h))⟩
         rcases mem_addNames.1 h with h | h
         · exact h
         · exact absurd h hn
@@ -190,8 +190,7 @@ theorem consistent_insertChild {s : St} (hc : Consistent s) {L : Layer} (hup : s
         have : p = pp := by injection h
         exact h1 this
       rw [localExp_agree s.disk _ m0 n' (agree_setUpper hc _ X hu h4 n' h2 hne)]
-      have := hl.kidsLoaded p m0 h4 hlo n'
-      exact ⟨this.1, fun h => this.2 ((headStat_ne_none_iff s.disk _ _).1 h)⟩
+      exact hl.kidsLoaded p m0 h4 hlo n'
   · -- kidsMem
     intro p m0 n' hm0 hn'
     show ∃ c, insertedMem s.mem n pp pm m' (n' :: p) = some c
